@@ -22,7 +22,7 @@ CHECKS = {
          "structs and variants, sorted constructors, recursion) and values: decode(encode v) = v with transient fields "
          "reset (RecordRt.rt_record_v0, RecordChunked.rt_record_chunked: header parse, chunk cutting, field loop). Tie: "
          "dynamic route drives AdtSerializer/AdtDeserializer as the macro output does; the macro itself is exercised by "
-         "the static catalogue AND by a translator (gen/expand.py): rustc's macro expansion of each of the 100 catalogue "
+         "the static catalogue AND by a translator (gen/expand.py): rustc's macro expansion of each of the 186 catalogue "
          "types is translated into the procedure it performs (metadata steps, ordered write_field/read_field/"
          "read_optional_field calls with defaults, constructor indices, transient constructors) and compared with the "
          "procedure the model executes for the declaration, on every run.",
